@@ -217,13 +217,21 @@ impl<'a> GGen<'a> {
             22 => { let n = self.rng.range(1, 3); let mut alts: Vec<Expr> = (0..n).map(|_| Expr::Str(self.lit())).collect(); let mut e = alts.pop().unwrap(); while let Some(x) = alts.pop() { e = Expr::Choice(bx(x), bx(e)); }
                 Expr::Rep(bx(Expr::Seq(bx(Expr::NegPred(bx(e))), bx(Expr::Ident("ANY".into()))))) }
             23 if self.cfg.stack_ops => self.stack_stress(d.min(3)),
+            // the tokenizer idiom: a repetition over rule alternatives with an uncounted fallback (`ANY` / a literal), so that
+            // a failed or refused rule call can be followed by matches that make no further calls
+            25 => { // only later rules: they are progress-or-fail (rule 0 may match the empty string) and cannot recurse back
+                let a = self.rule_ref(true).unwrap_or_else(|| self.consuming()); let b = self.rule_ref(true).unwrap_or_else(|| self.consuming());
+                let fb = if self.rng.chance(1, 2) { Expr::Ident("ANY".into()) } else { Expr::Str(self.lit()) };
+                let body = Expr::Choice(bx(a), bx(Expr::Choice(bx(b), bx(fb))));
+                Expr::Rep(bx(body)) }
             _ => self.consuming(),
         }
     }
     /// pushes, then a group of nested optional / predicate / sequence constructs that push, drop and pop, then
     /// something that may fail, with an alternative that reads the stack: exercises the restore paths
     fn stack_group(&mut self, d: usize) -> Expr {
-        let t = |g: &mut Self| match g.rng.below(8) { 0..=2 => Expr::Push(bx(Expr::Str(g.lit()))), 3 | 4 => Expr::Ident("DROP".into()), 5 => Expr::Ident("POP".into()), 6 => Expr::Ident("PEEK".into()), _ => Expr::Str(g.lit()) };
+        let t = |g: &mut Self| match g.rng.below(11) { 0..=2 => Expr::Push(bx(Expr::Str(g.lit()))), 3 | 4 => Expr::Ident("DROP".into()), 5 => Expr::Ident("POP".into()), 6 => Expr::Ident("PEEK".into()),
+            7 => Expr::Ident("PEEK_ALL".into()), 8 => Expr::PeekSlice(g.rng.below(3) as i32 - 1, if g.rng.chance(1, 2) { None } else { Some(g.rng.below(3) as i32) }), _ => Expr::Str(g.lit()) };
         if d == 0 { return t(self); }
         match self.rng.below(8) {
             0 | 1 => { let a = self.stack_group(d - 1); let b = self.stack_group(d - 1); Expr::Seq(bx(a), bx(b)) }
@@ -234,7 +242,7 @@ impl<'a> GGen<'a> {
         }
     }
     fn stack_stress(&mut self, d: usize) -> Expr {
-        let n = self.rng.range(1, 2);
+        let n = self.rng.range(1, 3);
         let mut e = { let g = self.stack_group(d); let tail = if self.rng.chance(1, 2) { Expr::Str(self.lit()) } else { Expr::Ident(self.rng.pick(&["PEEK", "POP", "PEEK_ALL"]).to_string()) };
             let reader = Expr::Seq(bx(if self.rng.chance(1, 2) { Expr::Str(self.lit()) } else { Expr::Opt(bx(Expr::Str(self.lit()))) }), bx(Expr::Ident(self.rng.pick(&["PEEK", "POP", "PEEK_ALL", "POP_ALL"]).to_string())));
             Expr::Choice(bx(Expr::Seq(bx(g), bx(tail))), bx(reader)) };
